@@ -19,62 +19,234 @@ func ev(kind int, p unsafe.Pointer) {
 
 type Int32 struct{ v atomic.Int32 }
 
-func (x *Int32) Load() int32   { ev(verifrt.EvAtomicLoad, unsafe.Pointer(x)); return x.v.Load() }
-func (x *Int32) Store(v int32) { ev(verifrt.EvAtomicStore, unsafe.Pointer(x)); x.v.Store(v) }
-func (x *Int32) Add(d int32) int32 {
-	ev(verifrt.EvAtomicRMW, unsafe.Pointer(x))
-	return x.v.Add(d)
-}
+func (x *Int32) Load() int32        { ev(verifrt.EvAtomicLoad, unsafe.Pointer(x)); return x.v.Load() }
+func (x *Int32) Store(v int32)      { ev(verifrt.EvAtomicStore, unsafe.Pointer(x)); x.v.Store(v) }
 func (x *Int32) Swap(v int32) int32 { ev(verifrt.EvAtomicRMW, unsafe.Pointer(x)); return x.v.Swap(v) }
+func (x *Int32) Add(d int32) int32  { ev(verifrt.EvAtomicRMW, unsafe.Pointer(x)); return x.v.Add(d) }
+func (x *Int32) And(m int32) int32  { ev(verifrt.EvAtomicRMW, unsafe.Pointer(x)); return x.v.And(m) }
+func (x *Int32) Or(m int32) int32   { ev(verifrt.EvAtomicRMW, unsafe.Pointer(x)); return x.v.Or(m) }
 func (x *Int32) CompareAndSwap(o, n int32) bool {
 	ev(verifrt.EvAtomicRMW, unsafe.Pointer(x))
 	return x.v.CompareAndSwap(o, n)
 }
 
+func LoadInt32(p *int32) int32 {
+	ev(verifrt.EvAtomicLoad, unsafe.Pointer(p))
+	return atomic.LoadInt32(p)
+}
+func StoreInt32(p *int32, v int32) {
+	ev(verifrt.EvAtomicStore, unsafe.Pointer(p))
+	atomic.StoreInt32(p, v)
+}
+func SwapInt32(p *int32, v int32) int32 {
+	ev(verifrt.EvAtomicRMW, unsafe.Pointer(p))
+	return atomic.SwapInt32(p, v)
+}
+func AddInt32(p *int32, d int32) int32 {
+	ev(verifrt.EvAtomicRMW, unsafe.Pointer(p))
+	return atomic.AddInt32(p, d)
+}
+func AndInt32(p *int32, m int32) int32 {
+	ev(verifrt.EvAtomicRMW, unsafe.Pointer(p))
+	return atomic.AndInt32(p, m)
+}
+func OrInt32(p *int32, m int32) int32 {
+	ev(verifrt.EvAtomicRMW, unsafe.Pointer(p))
+	return atomic.OrInt32(p, m)
+}
+func CompareAndSwapInt32(p *int32, o, n int32) bool {
+	ev(verifrt.EvAtomicRMW, unsafe.Pointer(p))
+	return atomic.CompareAndSwapInt32(p, o, n)
+}
+
 type Int64 struct{ v atomic.Int64 }
 
-func (x *Int64) Load() int64   { ev(verifrt.EvAtomicLoad, unsafe.Pointer(x)); return x.v.Load() }
-func (x *Int64) Store(v int64) { ev(verifrt.EvAtomicStore, unsafe.Pointer(x)); x.v.Store(v) }
-func (x *Int64) Add(d int64) int64 {
-	ev(verifrt.EvAtomicRMW, unsafe.Pointer(x))
-	return x.v.Add(d)
-}
+func (x *Int64) Load() int64        { ev(verifrt.EvAtomicLoad, unsafe.Pointer(x)); return x.v.Load() }
+func (x *Int64) Store(v int64)      { ev(verifrt.EvAtomicStore, unsafe.Pointer(x)); x.v.Store(v) }
 func (x *Int64) Swap(v int64) int64 { ev(verifrt.EvAtomicRMW, unsafe.Pointer(x)); return x.v.Swap(v) }
+func (x *Int64) Add(d int64) int64  { ev(verifrt.EvAtomicRMW, unsafe.Pointer(x)); return x.v.Add(d) }
+func (x *Int64) And(m int64) int64  { ev(verifrt.EvAtomicRMW, unsafe.Pointer(x)); return x.v.And(m) }
+func (x *Int64) Or(m int64) int64   { ev(verifrt.EvAtomicRMW, unsafe.Pointer(x)); return x.v.Or(m) }
 func (x *Int64) CompareAndSwap(o, n int64) bool {
 	ev(verifrt.EvAtomicRMW, unsafe.Pointer(x))
 	return x.v.CompareAndSwap(o, n)
+}
+
+func LoadInt64(p *int64) int64 {
+	ev(verifrt.EvAtomicLoad, unsafe.Pointer(p))
+	return atomic.LoadInt64(p)
+}
+func StoreInt64(p *int64, v int64) {
+	ev(verifrt.EvAtomicStore, unsafe.Pointer(p))
+	atomic.StoreInt64(p, v)
+}
+func SwapInt64(p *int64, v int64) int64 {
+	ev(verifrt.EvAtomicRMW, unsafe.Pointer(p))
+	return atomic.SwapInt64(p, v)
+}
+func AddInt64(p *int64, d int64) int64 {
+	ev(verifrt.EvAtomicRMW, unsafe.Pointer(p))
+	return atomic.AddInt64(p, d)
+}
+func AndInt64(p *int64, m int64) int64 {
+	ev(verifrt.EvAtomicRMW, unsafe.Pointer(p))
+	return atomic.AndInt64(p, m)
+}
+func OrInt64(p *int64, m int64) int64 {
+	ev(verifrt.EvAtomicRMW, unsafe.Pointer(p))
+	return atomic.OrInt64(p, m)
+}
+func CompareAndSwapInt64(p *int64, o, n int64) bool {
+	ev(verifrt.EvAtomicRMW, unsafe.Pointer(p))
+	return atomic.CompareAndSwapInt64(p, o, n)
 }
 
 type Uint32 struct{ v atomic.Uint32 }
 
 func (x *Uint32) Load() uint32   { ev(verifrt.EvAtomicLoad, unsafe.Pointer(x)); return x.v.Load() }
 func (x *Uint32) Store(v uint32) { ev(verifrt.EvAtomicStore, unsafe.Pointer(x)); x.v.Store(v) }
-func (x *Uint32) Add(d uint32) uint32 {
+func (x *Uint32) Swap(v uint32) uint32 {
 	ev(verifrt.EvAtomicRMW, unsafe.Pointer(x))
-	return x.v.Add(d)
+	return x.v.Swap(v)
 }
+func (x *Uint32) Add(d uint32) uint32 { ev(verifrt.EvAtomicRMW, unsafe.Pointer(x)); return x.v.Add(d) }
+func (x *Uint32) And(m uint32) uint32 { ev(verifrt.EvAtomicRMW, unsafe.Pointer(x)); return x.v.And(m) }
+func (x *Uint32) Or(m uint32) uint32  { ev(verifrt.EvAtomicRMW, unsafe.Pointer(x)); return x.v.Or(m) }
 func (x *Uint32) CompareAndSwap(o, n uint32) bool {
 	ev(verifrt.EvAtomicRMW, unsafe.Pointer(x))
 	return x.v.CompareAndSwap(o, n)
+}
+
+func LoadUint32(p *uint32) uint32 {
+	ev(verifrt.EvAtomicLoad, unsafe.Pointer(p))
+	return atomic.LoadUint32(p)
+}
+func StoreUint32(p *uint32, v uint32) {
+	ev(verifrt.EvAtomicStore, unsafe.Pointer(p))
+	atomic.StoreUint32(p, v)
+}
+func SwapUint32(p *uint32, v uint32) uint32 {
+	ev(verifrt.EvAtomicRMW, unsafe.Pointer(p))
+	return atomic.SwapUint32(p, v)
+}
+func AddUint32(p *uint32, d uint32) uint32 {
+	ev(verifrt.EvAtomicRMW, unsafe.Pointer(p))
+	return atomic.AddUint32(p, d)
+}
+func AndUint32(p *uint32, m uint32) uint32 {
+	ev(verifrt.EvAtomicRMW, unsafe.Pointer(p))
+	return atomic.AndUint32(p, m)
+}
+func OrUint32(p *uint32, m uint32) uint32 {
+	ev(verifrt.EvAtomicRMW, unsafe.Pointer(p))
+	return atomic.OrUint32(p, m)
+}
+func CompareAndSwapUint32(p *uint32, o, n uint32) bool {
+	ev(verifrt.EvAtomicRMW, unsafe.Pointer(p))
+	return atomic.CompareAndSwapUint32(p, o, n)
 }
 
 type Uint64 struct{ v atomic.Uint64 }
 
 func (x *Uint64) Load() uint64   { ev(verifrt.EvAtomicLoad, unsafe.Pointer(x)); return x.v.Load() }
 func (x *Uint64) Store(v uint64) { ev(verifrt.EvAtomicStore, unsafe.Pointer(x)); x.v.Store(v) }
-func (x *Uint64) Add(d uint64) uint64 {
+func (x *Uint64) Swap(v uint64) uint64 {
 	ev(verifrt.EvAtomicRMW, unsafe.Pointer(x))
-	return x.v.Add(d)
+	return x.v.Swap(v)
 }
+func (x *Uint64) Add(d uint64) uint64 { ev(verifrt.EvAtomicRMW, unsafe.Pointer(x)); return x.v.Add(d) }
+func (x *Uint64) And(m uint64) uint64 { ev(verifrt.EvAtomicRMW, unsafe.Pointer(x)); return x.v.And(m) }
+func (x *Uint64) Or(m uint64) uint64  { ev(verifrt.EvAtomicRMW, unsafe.Pointer(x)); return x.v.Or(m) }
 func (x *Uint64) CompareAndSwap(o, n uint64) bool {
 	ev(verifrt.EvAtomicRMW, unsafe.Pointer(x))
 	return x.v.CompareAndSwap(o, n)
 }
 
+func LoadUint64(p *uint64) uint64 {
+	ev(verifrt.EvAtomicLoad, unsafe.Pointer(p))
+	return atomic.LoadUint64(p)
+}
+func StoreUint64(p *uint64, v uint64) {
+	ev(verifrt.EvAtomicStore, unsafe.Pointer(p))
+	atomic.StoreUint64(p, v)
+}
+func SwapUint64(p *uint64, v uint64) uint64 {
+	ev(verifrt.EvAtomicRMW, unsafe.Pointer(p))
+	return atomic.SwapUint64(p, v)
+}
+func AddUint64(p *uint64, d uint64) uint64 {
+	ev(verifrt.EvAtomicRMW, unsafe.Pointer(p))
+	return atomic.AddUint64(p, d)
+}
+func AndUint64(p *uint64, m uint64) uint64 {
+	ev(verifrt.EvAtomicRMW, unsafe.Pointer(p))
+	return atomic.AndUint64(p, m)
+}
+func OrUint64(p *uint64, m uint64) uint64 {
+	ev(verifrt.EvAtomicRMW, unsafe.Pointer(p))
+	return atomic.OrUint64(p, m)
+}
+func CompareAndSwapUint64(p *uint64, o, n uint64) bool {
+	ev(verifrt.EvAtomicRMW, unsafe.Pointer(p))
+	return atomic.CompareAndSwapUint64(p, o, n)
+}
+
+type Uintptr struct{ v atomic.Uintptr }
+
+func (x *Uintptr) Load() uintptr   { ev(verifrt.EvAtomicLoad, unsafe.Pointer(x)); return x.v.Load() }
+func (x *Uintptr) Store(v uintptr) { ev(verifrt.EvAtomicStore, unsafe.Pointer(x)); x.v.Store(v) }
+func (x *Uintptr) Swap(v uintptr) uintptr {
+	ev(verifrt.EvAtomicRMW, unsafe.Pointer(x))
+	return x.v.Swap(v)
+}
+func (x *Uintptr) Add(d uintptr) uintptr {
+	ev(verifrt.EvAtomicRMW, unsafe.Pointer(x))
+	return x.v.Add(d)
+}
+func (x *Uintptr) And(m uintptr) uintptr {
+	ev(verifrt.EvAtomicRMW, unsafe.Pointer(x))
+	return x.v.And(m)
+}
+func (x *Uintptr) Or(m uintptr) uintptr { ev(verifrt.EvAtomicRMW, unsafe.Pointer(x)); return x.v.Or(m) }
+func (x *Uintptr) CompareAndSwap(o, n uintptr) bool {
+	ev(verifrt.EvAtomicRMW, unsafe.Pointer(x))
+	return x.v.CompareAndSwap(o, n)
+}
+
+func LoadUintptr(p *uintptr) uintptr {
+	ev(verifrt.EvAtomicLoad, unsafe.Pointer(p))
+	return atomic.LoadUintptr(p)
+}
+func StoreUintptr(p *uintptr, v uintptr) {
+	ev(verifrt.EvAtomicStore, unsafe.Pointer(p))
+	atomic.StoreUintptr(p, v)
+}
+func SwapUintptr(p *uintptr, v uintptr) uintptr {
+	ev(verifrt.EvAtomicRMW, unsafe.Pointer(p))
+	return atomic.SwapUintptr(p, v)
+}
+func AddUintptr(p *uintptr, d uintptr) uintptr {
+	ev(verifrt.EvAtomicRMW, unsafe.Pointer(p))
+	return atomic.AddUintptr(p, d)
+}
+func AndUintptr(p *uintptr, m uintptr) uintptr {
+	ev(verifrt.EvAtomicRMW, unsafe.Pointer(p))
+	return atomic.AndUintptr(p, m)
+}
+func OrUintptr(p *uintptr, m uintptr) uintptr {
+	ev(verifrt.EvAtomicRMW, unsafe.Pointer(p))
+	return atomic.OrUintptr(p, m)
+}
+func CompareAndSwapUintptr(p *uintptr, o, n uintptr) bool {
+	ev(verifrt.EvAtomicRMW, unsafe.Pointer(p))
+	return atomic.CompareAndSwapUintptr(p, o, n)
+}
+
 type Bool struct{ v atomic.Bool }
 
-func (x *Bool) Load() bool   { ev(verifrt.EvAtomicLoad, unsafe.Pointer(x)); return x.v.Load() }
-func (x *Bool) Store(v bool) { ev(verifrt.EvAtomicStore, unsafe.Pointer(x)); x.v.Store(v) }
+func (x *Bool) Load() bool       { ev(verifrt.EvAtomicLoad, unsafe.Pointer(x)); return x.v.Load() }
+func (x *Bool) Store(v bool)     { ev(verifrt.EvAtomicStore, unsafe.Pointer(x)); x.v.Store(v) }
+func (x *Bool) Swap(v bool) bool { ev(verifrt.EvAtomicRMW, unsafe.Pointer(x)); return x.v.Swap(v) }
 func (x *Bool) CompareAndSwap(o, n bool) bool {
 	ev(verifrt.EvAtomicRMW, unsafe.Pointer(x))
 	return x.v.CompareAndSwap(o, n)
@@ -82,8 +254,9 @@ func (x *Bool) CompareAndSwap(o, n bool) bool {
 
 type Value struct{ v atomic.Value }
 
-func (x *Value) Load() any   { ev(verifrt.EvAtomicLoad, unsafe.Pointer(x)); return x.v.Load() }
-func (x *Value) Store(v any) { ev(verifrt.EvAtomicStore, unsafe.Pointer(x)); x.v.Store(v) }
+func (x *Value) Load() any      { ev(verifrt.EvAtomicLoad, unsafe.Pointer(x)); return x.v.Load() }
+func (x *Value) Store(v any)    { ev(verifrt.EvAtomicStore, unsafe.Pointer(x)); x.v.Store(v) }
+func (x *Value) Swap(v any) any { ev(verifrt.EvAtomicRMW, unsafe.Pointer(x)); return x.v.Swap(v) }
 func (x *Value) CompareAndSwap(o, n any) bool {
 	ev(verifrt.EvAtomicRMW, unsafe.Pointer(x))
 	return x.v.CompareAndSwap(o, n)
@@ -91,56 +264,27 @@ func (x *Value) CompareAndSwap(o, n any) bool {
 
 type Pointer[T any] struct{ v atomic.Pointer[T] }
 
-func (x *Pointer[T]) Load() *T   { ev(verifrt.EvAtomicLoad, unsafe.Pointer(x)); return x.v.Load() }
-func (x *Pointer[T]) Store(v *T) { ev(verifrt.EvAtomicStore, unsafe.Pointer(x)); x.v.Store(v) }
+func (x *Pointer[T]) Load() *T     { ev(verifrt.EvAtomicLoad, unsafe.Pointer(x)); return x.v.Load() }
+func (x *Pointer[T]) Store(v *T)   { ev(verifrt.EvAtomicStore, unsafe.Pointer(x)); x.v.Store(v) }
+func (x *Pointer[T]) Swap(v *T) *T { ev(verifrt.EvAtomicRMW, unsafe.Pointer(x)); return x.v.Swap(v) }
 func (x *Pointer[T]) CompareAndSwap(o, n *T) bool {
 	ev(verifrt.EvAtomicRMW, unsafe.Pointer(x))
 	return x.v.CompareAndSwap(o, n)
 }
 
-func LoadInt32(p *int32) int32 { ev(verifrt.EvAtomicLoad, unsafe.Pointer(p)); return atomic.LoadInt32(p) }
-func LoadInt64(p *int64) int64 { ev(verifrt.EvAtomicLoad, unsafe.Pointer(p)); return atomic.LoadInt64(p) }
-func LoadUint32(p *uint32) uint32 {
+func LoadPointer(p *unsafe.Pointer) unsafe.Pointer {
 	ev(verifrt.EvAtomicLoad, unsafe.Pointer(p))
-	return atomic.LoadUint32(p)
+	return atomic.LoadPointer(p)
 }
-func LoadUint64(p *uint64) uint64 {
-	ev(verifrt.EvAtomicLoad, unsafe.Pointer(p))
-	return atomic.LoadUint64(p)
-}
-func StoreInt32(p *int32, v int32) { ev(verifrt.EvAtomicStore, unsafe.Pointer(p)); atomic.StoreInt32(p, v) }
-func StoreInt64(p *int64, v int64) { ev(verifrt.EvAtomicStore, unsafe.Pointer(p)); atomic.StoreInt64(p, v) }
-func StoreUint32(p *uint32, v uint32) {
+func StorePointer(p *unsafe.Pointer, v unsafe.Pointer) {
 	ev(verifrt.EvAtomicStore, unsafe.Pointer(p))
-	atomic.StoreUint32(p, v)
+	atomic.StorePointer(p, v)
 }
-func StoreUint64(p *uint64, v uint64) {
-	ev(verifrt.EvAtomicStore, unsafe.Pointer(p))
-	atomic.StoreUint64(p, v)
-}
-func AddInt32(p *int32, d int32) int32 { ev(verifrt.EvAtomicRMW, unsafe.Pointer(p)); return atomic.AddInt32(p, d) }
-func AddInt64(p *int64, d int64) int64 { ev(verifrt.EvAtomicRMW, unsafe.Pointer(p)); return atomic.AddInt64(p, d) }
-func AddUint32(p *uint32, d uint32) uint32 {
+func SwapPointer(p *unsafe.Pointer, v unsafe.Pointer) unsafe.Pointer {
 	ev(verifrt.EvAtomicRMW, unsafe.Pointer(p))
-	return atomic.AddUint32(p, d)
+	return atomic.SwapPointer(p, v)
 }
-func AddUint64(p *uint64, d uint64) uint64 {
+func CompareAndSwapPointer(p *unsafe.Pointer, o, n unsafe.Pointer) bool {
 	ev(verifrt.EvAtomicRMW, unsafe.Pointer(p))
-	return atomic.AddUint64(p, d)
-}
-func CompareAndSwapInt32(p *int32, o, n int32) bool {
-	ev(verifrt.EvAtomicRMW, unsafe.Pointer(p))
-	return atomic.CompareAndSwapInt32(p, o, n)
-}
-func CompareAndSwapInt64(p *int64, o, n int64) bool {
-	ev(verifrt.EvAtomicRMW, unsafe.Pointer(p))
-	return atomic.CompareAndSwapInt64(p, o, n)
-}
-func CompareAndSwapUint32(p *uint32, o, n uint32) bool {
-	ev(verifrt.EvAtomicRMW, unsafe.Pointer(p))
-	return atomic.CompareAndSwapUint32(p, o, n)
-}
-func CompareAndSwapUint64(p *uint64, o, n uint64) bool {
-	ev(verifrt.EvAtomicRMW, unsafe.Pointer(p))
-	return atomic.CompareAndSwapUint64(p, o, n)
+	return atomic.CompareAndSwapPointer(p, o, n)
 }
